@@ -7,7 +7,7 @@ package handlers
 import (
 	"context"
 	"strings"
-	"sync"
+	"time"
 
 	"github.com/mimecast/dtail/internal/io/dlog"
 	"github.com/mimecast/dtail/internal/lcontext"
@@ -34,10 +34,7 @@ func VerifC08bWiring() {
 	c08bReads = nil
 	h := VerifNewServerHandler(false, false, false, 2, 2)
 	r := newReadCommand(h, omode.CatClient)
-	var wg sync.WaitGroup
-	wg.Add(1)
-	r.readFileIfPermissions(context.Background(), lcontext.LContext{}, &wg, "/real/secret/file", "/real/*/file", regex.NewNoop())
-	wg.Wait()
+	r.readFiles(context.Background(), lcontext.LContext{}, []string{"/real/secret/file"}, "/real/*/file", regex.NewNoop(), time.Second)
 	if c08bAllowed {
 		verifrt.Assert(len(c08bReads) == 1 && c08bReads[0] == "/real/secret/file", "an allowed file was not served")
 		verifrt.Assert(len(h.serverMessages) == 0, "unexpected message for an allowed file")
